@@ -25,6 +25,7 @@ sys.path.insert(0, HERE)
 import extract            # noqa: E402
 import verus_run          # noqa: E402
 import kani_run           # noqa: E402
+import native_run         # noqa: E402
 from rstok import LostAnchor, Unsupported   # noqa: E402
 
 SAFETY_KINDS = ("arithmetic underflow/overflow", "division by zero", "bit shift", "decreases", "termination")
@@ -165,6 +166,43 @@ def check_property(prop, tier, repo, cfg, seed):
         if kfut:
             results.extend(kfut.result())
 
+    # ---- bounded native companion (witness search; never counted as proof)
+    companion_info = None
+    comp = pcfg.get("companion")
+    if comp:
+        cunits = [r for r in results if r["unit"] in comp["units"]]
+        trouble = [r for r in cunits if r["status"] in ("violated", "undecided")]
+        if trouble or tier == "thorough":
+            tests = comp["tests_thorough"] if tier == "thorough" else comp["tests_quick"]
+            cr = native_run.run_companion(repo, comp["file"], tests, seed=seed or 1,
+                                          cases=comp.get("cases_thorough") if tier == "thorough" else comp.get("cases_quick"))
+            companion_info = {"file": comp["file"], "tests": tests, "status": cr["status"], "cases": cr["cases"],
+                              "wall_s": round(cr["wall_s"], 1), "cmd": cr["cmd"], "bound": comp.get("bound", "")}
+            if cr["status"] == "witness":
+                w = cr["witnesses"][0]
+                attached = False
+                for r in trouble:
+                    for fail in r.get("failed", []):
+                        if not fail.get("witness"):
+                            fail["witness"] = w
+                            fail["native_replay"] = "found and replayed natively against the real code by %s (%s)" % (comp["file"], cr["cmd"])
+                            attached = True
+                if not attached:
+                    # no Verus verdict to attach to (unit could not be assembled, or proofs pass while the real code
+                    # disagrees with the reference): the failing input itself is the violation
+                    host = trouble[0] if trouble else (cunits[0] if cunits else None)
+                    if host is not None:
+                        why = host.get("reason") or "all obligations of the contracted functions discharged"
+                        host.setdefault("failed", []).append({
+                            "function": "native_companion", "kind": "failing input found by the bounded native companion (%s)" % why[:200],
+                            "line": None, "col": None, "text": cr["out_tail"][-1500:], "witness": w,
+                            "native_replay": "replayed natively against the real code by %s (%s)" % (comp["file"], cr["cmd"]),
+                            "props": [prop]})
+                        if host["status"] == "undecided":
+                            host["status"] = "violated"
+            elif cr["status"] == "error" and tier == "thorough":
+                print("companion could not run: %s" % cr["out_tail"][-400:], file=sys.stderr)
+
     violations, undecided, known = [], [], []
     obligations = discharged = 0
     fn_under_contract = []
@@ -275,7 +313,10 @@ def check_property(prop, tier, repo, cfg, seed):
             "functions_under_contract": fn_under_contract,
             "units": per_unit,
             "assumption_scan_total": assumptions_total,
-            "bounded": bounded,
+            "bounded": bounded + ([{"harness": "native companion " + companion_info["file"], "bound": companion_info["bound"],
+                                    "status": companion_info["status"], "cases": companion_info["cases"],
+                                    "what": "real chunker vs reference written from the property statement; witness search only"}]
+                                  if companion_info else []),
             "samples": samples[:12] or [{"note": "no obligations"}],
             "not_covered": pcfg.get("not_covered", []),
             "obligation_unit": "one obligation = all verification conditions Verus generates for one function or lemma "
